@@ -235,6 +235,14 @@ def _isotherm_item(draw):
     return it
 
 
+def _other_case(name):
+    """The same letters in another case (None when the name has no cased letters)."""
+    for cand in (name.upper(), name.lower(), name.swapcase()):
+        if cand != name:
+            return cand
+    return None
+
+
 _OPS_ALL = (["iso_up"] * 6 + ["iso_del"] * 4 + ["iso_get"] * 3 + ["mat_up"] * 4 + ["mat_del"] * 3 + ["mat_get"] +
             ["ads_up"] * 4 + ["ads_del"] * 3 + ["ads_get"] + ["ptype_up"] * 3 + ["ptype_del"] * 2 + ["ptype_get"])
 
@@ -244,7 +252,7 @@ def _op(kinds, tables):
         "op": st.sampled_from(kinds), "f": st.sampled_from([0, 0, 0, 1, 1, 2]), "i": st.integers(0, 11),
         "ow": st.sampled_from([False, False, True]), "auto": st.sampled_from([True, True, False]),
         "am": st.sampled_from([True] * 5 + [False]), "aa": st.sampled_from([True] * 5 + [False]),
-        "by": st.sampled_from(["object", "key", "retrieved"]), "via": st.sampled_from(["func", "func", "method"]),
+        "by": st.sampled_from(["object", "key", "retrieved", "key", "key_other_case"]), "via": st.sampled_from(["func", "func", "method"]),
         "crit": st.sampled_from(["none", "none", "material", "adsorbate", "temperature", "iso_type", "mat+ads"]),
         "table": st.sampled_from(tables), "tv": st.integers(0, 2),
         "pick": st.sampled_from(["present", "present", "present", "absent", "any"]),
@@ -871,6 +879,17 @@ class Run:
                 arg = got[0]
             else:
                 by = "key"
+        other = _other_case(name) if by == "key_other_case" else None
+        if by == "key_other_case" and (other is None or other in m.mats):
+            by = "key"
+        if by == "key_other_case":
+            where = f"{where} material_delete_db({other!r} (stored: {name!r}) by key, file {f})"
+            obs, err = self.call(pgsql.material_delete_db, other, db_path=self.paths[f], verbose=False)
+            self.outcome("material_delete_db", where, "refused", obs, err, "absent")
+            self.after(f, where, "refused", obs, err, "absent")
+            self.ctx.label("delete_other_case")
+            self.record("mat_del", f, mi, by, obs)
+            return
         where = f"{where} material_delete_db({name!r} by {by}, file {f})"
         if name not in m.mats:
             exp, reason = "refused", "absent"
@@ -949,6 +968,19 @@ class Run:
                 arg = got[0]
             else:
                 by = "key"
+        other = _other_case(name) if by == "key_other_case" else None
+        if by == "key_other_case" and (other is None or other in m.ads):
+            by = "key"
+        if by == "key_other_case":
+            # the same letters in another case are ANOTHER key (what the target file holds decides, not what the session
+            # knows): the deletion is one of an absent item
+            where = f"{where} adsorbate_delete_db({other!r} (stored: {name!r}) by key, file {f})"
+            obs, err = self.call(pgsql.adsorbate_delete_db, other, db_path=self.paths[f], verbose=False)
+            self.outcome("adsorbate_delete_db", where, "refused", obs, err, "absent")
+            self.after(f, where, "refused", obs, err, "absent")
+            self.ctx.label("delete_other_case")
+            self.record("ads_del", f, ai, by, obs)
+            return
         where = f"{where} adsorbate_delete_db({name!r} by {by}, file {f})"
         if name not in m.ads:
             exp, reason = "refused", "absent"
@@ -1129,7 +1161,7 @@ class Run:
         idx = self.choose(op, len(self.desc["isos"]), lambda i: i in self.iso_in_file[f], "pick")
         key, obj = self.key(idx), self.iso_objs[idx]
         m = self.models[f]
-        by = op["by"]
+        by = "key" if op["by"] == "key_other_case" else op["by"]
         arg, rcauses = obj, None
         if by == "key":
             arg = key
